@@ -115,6 +115,8 @@ def bodies(tier):
     # a byte order mark is a character like any other once the body has begun (U+FEFF in UTF-8; the same three bytes read as
     # three characters in a one-byte character set)
     out += ["<OFX>a\ufeffb</OFX>", "<OFX>\ufeff</OFX>", "<OFX>\u00ef\u00bb\u00bfx</OFX>"]
+    # character-exact: text that is not in a Unicode normal form stays as it is (base letter + combining mark, OHM SIGN, ANGSTROM SIGN)
+    out += ["<OFX>e\u0301 \u2126 \u212b</OFX>", "<OFX>A\u030a</OFX>"]
     out += ["<OFX>Caf\u00c3\u00a9 \u00c2\u00a35</OFX>", "<OFX>\u00e2\u201a\u00ac</OFX>", "<OFX>\u00c3\u00a9</OFX>", "<OFX>\u00c3\u00a9 and \u00e9</OFX>"]
     return out
 
